@@ -20,6 +20,7 @@ import (
 	"com.tuntun.rangers/node/src/utility"
 	"com.tuntun.rangers/node/src/vm"
 	"com.tuntun.rangers/node/src/zzverif/simdisk"
+	"com.tuntun.rangers/node/src/zzverif/simrt"
 	"github.com/syndtr/goleveldb/leveldb"
 )
 
@@ -118,8 +119,45 @@ func installHooks() {
 }
 
 // Clock: protocol time is utility.GetTime(); the harness moves it explicitly.
-func SetTime(t time.Time)     { utility.SimSetNow(t.UnixNano()) }
-func Advance(d time.Duration) { utility.SimAdvance(d) }
+func SetTime(t time.Time) {
+	noteSimTime(t)
+	utility.SimSetNow(t.UnixNano())
+}
+
+// noteSimTime records a protocol time value the plan uses (clock settings, block timestamps).
+func noteSimTime(t time.Time) {
+	n := t.UnixNano()
+	if !spanSet || n < spanMin {
+		spanMin = n
+	}
+	if !spanSet || n > spanMax {
+		spanMax = n
+	}
+	spanSet = true
+}
+func Advance(d time.Duration) {
+	spanAdv += int64(d)
+	utility.SimAdvance(d)
+}
+
+// simulated protocol time covered since the last call: the span of the clock values a plan set plus
+// what it advanced explicitly (reported as "simulated time" in the evidence)
+var (
+	spanSet          bool
+	spanMin, spanMax int64
+	spanAdv          int64
+)
+
+func init() {
+	simrt.SimSpanHook = func() int64 {
+		ms := spanAdv / int64(time.Millisecond)
+		if spanSet {
+			ms += (spanMax - spanMin) / int64(time.Millisecond)
+		}
+		spanSet, spanMin, spanMax, spanAdv = false, 0, 0, 0
+		return ms
+	}
+}
 
 // Boot starts a node incarnation over disk (fresh disk => genesis is created).
 // Any previous incarnation in this process is abandoned first (its store handles are
@@ -136,7 +174,6 @@ func Boot(disk *simdisk.Disk, forks Forks, withHandlers bool) *Node {
 	OnWrite = nil
 	hookMu.Unlock()
 	FailWrite = nil
-
 
 	SetForks(forks)
 	common.SetBlockHeight(0)
@@ -164,4 +201,3 @@ func Boot(disk *simdisk.Disk, forks Forks, withHandlers bool) *Node {
 	current = n
 	return n
 }
-
